@@ -49,7 +49,7 @@ def setarch_prefix():
 def n_runs(tier):
     if os.environ.get("VERIF_RUNS"):
         return int(os.environ["VERIF_RUNS"])
-    return 4000 if tier == "quick" else 200000
+    return 4000 if tier == "quick" else 80000
 
 
 def shrink_hint(plan):
